@@ -1,5 +1,6 @@
 import Cpl.Driver.Proto
 import Cpl.Model.Dsl
+import Cpl.Model.DynS
 
 namespace Cpl.Driver
 open Cpl.Proto Cpl Cpl.Dsl
@@ -35,9 +36,15 @@ def opsEvolve1D (op : String) (a : Args) : Option String :=
         | some T, none => showEvolve (evolveFixed hist T rl.toRule1 r mode {})
         | none, some p =>
           let fuel := (argNat a "fuel").getD 10000
-          match evolveDynamic fuel hist p.eval rl.toRule1 r mode {} with
+          -- the stateful-callable model with a recording predicate (C06.dynS_pure: same result as `evolveDynamic`)
+          match evolveDynamicS fuel hist (recPred p.eval) rl.toRule1 r mode {} [] with
           | none => "out-of-fuel"
-          | some res => showEvolve res
+          | some (.error e) => showErr e
+          | some (.ok (rows, st, log)) =>
+            let base := showEvolve (.ok (rows, st))
+            if (arg a "consults") == some "1" then
+              base ++ " consults=" ++ String.intercalate "/" (log.map fun (rs, t) => showMat rs ++ "@" ++ toString t)
+            else base
         | _, _ => badOp
     | _, _, _, _ => badOp
   | "index_strides" => some <|
